@@ -10,7 +10,7 @@ CONFIGS = ['prod']
 EXPLANATION = (
     'The whole property (convergence for all histories, delivery schedules and repair orders) is a runtime statement and is NOT decided. '
     'S3.SEM: the supervision of one repair exchange interpreted against scripted progress histories and both outcomes of the removal task (Ok <=> done seen, never expired, removals joined '
-    'and succeeded). S7.SEM: the poller interpreted over three polling rounds against two peers — every keyspace a peer lists whose change stamp is not the one recorded at that peer\'s last successful exchange of it has its difference computed against that peer and is exchanged with it (the tracker and KeyspaceTimestamps::diff are the real code). S8: the mechanisms convergence rests on re-evaluated under C01 (the hybrid clock\'s send / recv, the set\'s insert / delete / merge / diff and its version vectors, the clock actor and its handle — the same summaries that decide C09, C04, C03, C05, C11). Decided necessary conditions of repair-based convergence: S1 source-id discipline — every keyspace message built on the client / '
+    'and succeeded). S7.SEM: the poller interpreted over three polling rounds against two peers — every keyspace a peer lists whose change stamp is not the one recorded at that peer\'s last successful exchange of it has its difference computed against that peer and is exchanged with it (the tracker and KeyspaceTimestamps::diff are the real code). S9.SEM: the progress tracker and its watcher interpreted (atomics as shared cells, elapsed time an oracle): done is exactly what the task set on its copy of the tracker, expired exactly a timeout without registered progress, per exchange. S8: the mechanisms convergence rests on re-evaluated under C01 (the hybrid clock\'s send / recv, the set\'s insert / delete / merge / diff and its version vectors, the clock actor and its handle — the same summaries that decide C09, C04, C03, C05, C11). Decided necessary conditions of repair-based convergence: S1 source-id discipline — every keyspace message built on the client / '
     'consistency-service path carries the ordered-stream source id and every one built on the repair path carries the repair source id, '
     'the two constants differ and are below the number of sources (mixing the ordered and the unordered stream on one source makes a '
     'replica refuse operations it lacks, permanently); S2 every locally accepted client mutation is handed to the batch distributor on '
@@ -216,6 +216,10 @@ def check_S3(ctx, facts):
     # summary cannot read is recorded as "not decided" in the evidence, never reported
     import poll_abs
     poll_abs.check_polling(ctx, facts, 'C01.S7.SEM')
+    # S9.SEM: the tracker / watcher pair the supervision asks (tracker_abs): "done" is what the task set on ITS copy, "expired" is the
+    # timeout since the last registered progress
+    import tracker_abs
+    tracker_abs.check_tracker(ctx, facts, 'C01.S9.SEM')
     for body in ([] if sup_sem else bs):
         flow = Flow(body)
         calls = list(body.calls())
